@@ -49,6 +49,14 @@ pub fn cases(t: bool) -> Vec<Case> {
             }
         }
     }
+    // forwarding impls (compare / hash / format / iterate / poll / borrow) over value pairs and argument grids
+    for (g, na, nb) in FW_GROUPS {
+        for a in 0..na {
+            for b in 0..nb {
+                c.push(Case::Bx { fam: 100 + g, build: a, steps: b as u16, term: 0, fault: 255 });
+            }
+        }
+    }
     // C16: panicking destructor when a Box (sized / slice) dies
     for fault in 0..4u8 {
         c.push(Case::Bx { fam: 0, build: 0, steps: 0, term: 0, fault });
@@ -76,6 +84,9 @@ fn term_applies(fam: u8, term: u8) -> bool {
 }
 
 pub fn describe(fam: u8, build: u8, steps: u16, term: u8, fault: u8) -> serde_json::Value {
+    if fam >= 100 {
+        return serde_json::json!({"box_forwarding_group": FW_NAMES[(fam - 100) as usize], "a": build, "b": steps});
+    }
     let st: Vec<&str> = (0..4).map(|j| STEP_NAMES[((steps >> (3 * j)) & 7) as usize]).filter(|s| *s != "-").collect();
     serde_json::json!({"box_of": FAMILIES[fam as usize], "built_by": build, "steps": st, "terminal": TERM_NAMES[term as usize], "destructor_panics_at": if fault == 255 { serde_json::Value::Null } else { serde_json::json!(fault) }})
 }
@@ -413,7 +424,274 @@ impl StrCompat for bumpalo::collections::String<'static> {
     }
 }
 
+/// (group, |a|, |b|)
+const FW_GROUPS: [(u8, u8, u8); 8] = [(0, 5, 5), (1, 6, 6), (2, 6, 6), (3, 5, 5), (4, 14, 1), (5, 6, 6), (6, 4, 1), (7, 3, 1)];
+const FW_NAMES: [&str; 8] = ["u64 pair: compare/hash/format", "f64 pair: partial compare/format", "str pair: compare/hash/format", "[u8] pair: compare/hash/format", "Hasher write_* forwarding", "Iterator method pairs", "Borrow/AsRef/AsMut/Deref/Pointer", "Future polling"];
+const FW_U64: [u64; 5] = [0, 5, 7, 255, u64::MAX];
+const FW_F64: [f64; 6] = [f64::NAN, -0.0, 0.0, 1.5, -2.25, f64::INFINITY];
+const FW_STR: [&str; 6] = ["", "a", "ab", "b", "é€", "a\n\"q"];
+const FW_BYTES: [&[u8]; 5] = [&[], &[0], &[0, 1], &[1], &[255, 0, 7]];
+
+/// Every write to the hasher is recorded with the method that received it.
+#[derive(Default)]
+struct RecHasher {
+    log: Vec<(u8, u128)>,
+}
+impl Hasher for RecHasher {
+    fn finish(&self) -> u64 {
+        self.log.iter().fold(17u64, |a, (m, x)| a.wrapping_mul(1_000_003).wrapping_add(*m as u64 * 31 + *x as u64))
+    }
+    fn write(&mut self, b: &[u8]) {
+        self.log.push((0, b.iter().fold(b.len() as u128, |a, x| a * 257 + *x as u128)))
+    }
+    fn write_u8(&mut self, i: u8) { self.log.push((1, i as u128)) }
+    fn write_u16(&mut self, i: u16) { self.log.push((2, i as u128)) }
+    fn write_u32(&mut self, i: u32) { self.log.push((3, i as u128)) }
+    fn write_u64(&mut self, i: u64) { self.log.push((4, i as u128)) }
+    fn write_u128(&mut self, i: u128) { self.log.push((5, i)) }
+    fn write_usize(&mut self, i: usize) { self.log.push((6, i as u128)) }
+    fn write_i8(&mut self, i: i8) { self.log.push((7, i as u128)) }
+    fn write_i16(&mut self, i: i16) { self.log.push((8, i as u128)) }
+    fn write_i32(&mut self, i: i32) { self.log.push((9, i as u128)) }
+    fn write_i64(&mut self, i: i64) { self.log.push((10, i as u128)) }
+    fn write_i128(&mut self, i: i128) { self.log.push((11, i as u128)) }
+    fn write_isize(&mut self, i: isize) { self.log.push((12, i as u128)) }
+}
+
+/// Iterator with its own (contract-abiding) `nth`/`last`/`nth_back`/`len`: a wrapper may forward to
+/// them or use the defaults (bumpalo's `last` folds, std's forwards), the answers must agree.
+struct OddIter {
+    lo: u32,
+    hi: u32,
+}
+impl Iterator for OddIter {
+    type Item = u32;
+    fn next(&mut self) -> Option<u32> {
+        if self.lo < self.hi { self.lo += 1; Some(self.lo - 1) } else { None }
+    }
+    fn size_hint(&self) -> (usize, Option<usize>) {
+        ((self.hi - self.lo) as usize, Some((self.hi - self.lo) as usize))
+    }
+    fn nth(&mut self, n: usize) -> Option<u32> {
+        self.lo = (self.lo + n as u32).min(self.hi);
+        self.next()
+    }
+    fn last(mut self) -> Option<u32> {
+        self.next_back()
+    }
+}
+impl DoubleEndedIterator for OddIter {
+    fn next_back(&mut self) -> Option<u32> {
+        if self.lo < self.hi { self.hi -= 1; Some(self.hi) } else { None }
+    }
+    fn nth_back(&mut self, n: usize) -> Option<u32> {
+        self.hi = self.hi.saturating_sub(n as u32).max(self.lo);
+        self.next_back()
+    }
+}
+impl ExactSizeIterator for OddIter {
+    fn len(&self) -> usize {
+        (self.hi - self.lo) as usize
+    }
+}
+
+macro_rules! fmt_all_display {
+    ($out:expr, $x:expr) => {{
+        let x = $x;
+        $out.push(format!("{}|{:>7}|{:<7}|{:^7}|{:*^9}|{:+}|{:08}|{:.2}|{:10.3}|{:-<6.1}|{:#}|{:w$}|{:.p$}|{:>w$.p$}", x, x, x, x, x, x, x, x, x, x, x, x, x, x, w = 6, p = 1));
+    }};
+}
+macro_rules! fmt_all_str {
+    ($out:expr, $x:expr) => {{
+        let x = $x;
+        $out.push(format!("{}|{:>7}|{:<7}|{:^7}|{:*^9}|{:.1}|{:10.3}|{:-<6.1}|{:w$}|{:.p$}|{:>w$.p$}", x, x, x, x, x, x, x, x, x, x, x, w = 6, p = 1));
+    }};
+}
+macro_rules! fmt_all_debug {
+    ($out:expr, $x:expr) => {{
+        let x = $x;
+        $out.push(format!("{:?}|{:#?}|{:>12?}|{:<12?}|{:*^14?}|{:08?}|{:+?}|{:x?}|{:#X?}|{:.1?}", x, x, x, x, x, x, x, x, x, x));
+    }};
+}
+macro_rules! cmp_all {
+    ($out:expr, $a:expr, $b:expr) => {{
+        let (a, b) = ($a, $b);
+        $out.push(format!("eq{} ne{} pc{:?} lt{} le{} ge{} gt{} | rev eq{} ne{} pc{:?} lt{} le{} ge{} gt{}", a == b, a != b, a.partial_cmp(b), a < b, a <= b, a >= b, a > b, b == a, b != a, b.partial_cmp(a), b < a, b <= a, b >= a, b > a));
+    }};
+}
+macro_rules! hash_fwd {
+    ($out:expr, $a:expr) => {{
+        let mut h = RecHasher::default();
+        $a.hash(&mut h);
+        $out.push(format!("hash{:?}", h.log));
+    }};
+}
+
+/// One forwarding case in one world. `$mk` boxes a sized value, `$mks`/`$mkb` box a str / byte slice.
+macro_rules! forwarding {
+    ($out:expr, $g:expr, $a:expr, $b:expr, mk = $mk:expr, mk_str = $mks:expr, mk_bytes = $mkb:expr, dynhash = $dh:expr, dynfut = $df:expr) => {{
+        let out: &mut Vec<String> = $out;
+        let (ai, bi) = ($a as usize, $b as usize);
+        match $g {
+            0 => {
+                let (x, y) = ($mk(FW_U64[ai]), $mk(FW_U64[bi]));
+                let _g = Callback::enter();
+                cmp_all!(out, &x, &y);
+                out.push(format!("cmp{:?} max{} ", x.cmp(&y), *(&x).max(&y)));
+                hash_fwd!(out, x);
+                fmt_all_display!(out, &x);
+                fmt_all_debug!(out, &x);
+            }
+            1 => {
+                let (x, y) = ($mk(FW_F64[ai]), $mk(FW_F64[bi]));
+                let _g = Callback::enter();
+                cmp_all!(out, &x, &y);
+                fmt_all_display!(out, &x);
+                fmt_all_debug!(out, &x);
+            }
+            2 => {
+                let (x, y) = ($mks(FW_STR[ai]), $mks(FW_STR[bi]));
+                let _g = Callback::enter();
+                cmp_all!(out, &x, &y);
+                out.push(format!("cmp{:?}", x.cmp(&y)));
+                hash_fwd!(out, x);
+                fmt_all_str!(out, &x);
+                fmt_all_debug!(out, &x);
+            }
+            3 => {
+                let (x, y) = ($mkb(FW_BYTES[ai]), $mkb(FW_BYTES[bi]));
+                let _g = Callback::enter();
+                cmp_all!(out, &x, &y);
+                out.push(format!("cmp{:?}", x.cmp(&y)));
+                hash_fwd!(out, x);
+                fmt_all_debug!(out, &x);
+            }
+            4 => {
+                // every Hasher method, on a sized box and on a boxed trait object
+                let mut x = $mk(RecHasher::default());
+                let mut d = $dh(RecHasher::default());
+                let _g = Callback::enter();
+                macro_rules! both { ($m:ident, $v:expr) => {{ x.$m($v); d.$m($v); }}; }
+                match ai {
+                    0 => both!(write, &[1u8, 2, 3][..]),
+                    1 => both!(write_u8, 0x81),
+                    2 => both!(write_u16, 0x8122),
+                    3 => both!(write_u32, 0x8122_3344),
+                    4 => both!(write_u64, 0x8122_3344_5566_7788),
+                    5 => both!(write_u128, 0x8122_3344_5566_7788_99aa_bbcc_ddee_ff00),
+                    6 => both!(write_usize, 0x8122_3344_5566_7788),
+                    7 => both!(write_i8, -3),
+                    8 => both!(write_i16, -300),
+                    9 => both!(write_i32, -70_000),
+                    10 => both!(write_i64, -5_000_000_000),
+                    11 => both!(write_i128, -(1i128 << 100)),
+                    12 => both!(write_isize, -77),
+                    _ => { both!(write_u8, 1); both!(write_u16, 2); both!(write, &[][..]); }
+                }
+                out.push(format!("sized log {:?} finish {} | dyn finish {}", x.log, x.finish(), d.finish()));
+            }
+            5 => {
+                // two iterator calls in sequence, then what is left
+                let mut it = $mk(OddIter { lo: 0, hi: 7 });
+                let _g = Callback::enter();
+                for op in [ai, bi] {
+                    match op {
+                        0 => out.push(format!("next{:?}", it.next())),
+                        1 => out.push(format!("next_back{:?}", it.next_back())),
+                        2 => out.push(format!("nth2{:?}", it.nth(2))),
+                        3 => out.push(format!("nth_back1{:?}", it.nth_back(1))),
+                        4 => out.push(format!("size_hint{:?} len{}", it.size_hint(), it.len())),
+                        _ => out.push(format!("nth9{:?}", it.nth(9))),
+                    }
+                }
+                out.push(format!("hint{:?} len{}", it.size_hint(), it.len()));
+                out.push(format!("last{:?}", it.last()));
+            }
+            6 => {
+                use std::borrow::{Borrow, BorrowMut};
+                let mut x = $mk(FW_U64[ai + 1]);
+                let _g = Callback::enter();
+                let addr = &*x as *const u64 as usize;
+                let b1: &u64 = x.borrow();
+                let (b1v, b1a) = (*b1, b1 as *const u64 as usize == addr);
+                let r1: &u64 = x.as_ref();
+                let (r1v, r1a) = (*r1, r1 as *const u64 as usize == addr);
+                { let m: &mut u64 = x.as_mut(); *m = m.wrapping_add(1); }
+                { let m: &mut u64 = x.borrow_mut(); *m = m.wrapping_mul(3); }
+                *x ^= 0x55;
+                let p = format!("{:p}", x);
+                out.push(format!("borrow{} {} as_ref{} {} after{} pointer_is_value_address{} pfmt{}", b1v, b1a, r1v, r1a, *x, p == format!("{:p}", addr as *const u64), format!("{:18p}", x).len()));
+            }
+            _ => {
+                let wk = noop_waker();
+                let mut cx = Context::from_waker(&wk);
+                let mut f = $df(TwoStep { polls: 0, d: D::new(9, 71, 0) });
+                let _g = Callback::enter();
+                for _ in 0..=ai {
+                    out.push(format!("poll{:?}", Pin::new(&mut f).poll(&mut cx)));
+                }
+            }
+        }
+    }};
+}
+
+fn run_forwarding(envp: *mut ExecEnv, g: u8, a: u8, b: u16, v: &mut Vec<Violation>) -> u64 {
+    reset_ledgers();
+    let bump: *mut Bump = Box::into_raw(Box::new(arena_op(envp, 0, 0, &[], || Bump::with_capacity(2048)).unwrap()));
+    let bref: &'static Bump = unsafe { &*bump };
+    let mut o0: Vec<String> = Vec::new();
+    let mut o1: Vec<String> = Vec::new();
+    let r0 = {
+        let o = &mut o0;
+        arena_op(envp, 1, 0, &[], || {
+            forwarding!(o, g, a, b, mk = |x| BBox::new_in(x, bref),
+                mk_str = |s: &str| -> BBox<'static, str> { let r: &'static mut str = bumpalo::collections::String::from_str_in(s, bref).into_bump_str_mut_compat(); unsafe { BBox::from_raw(r as *mut str) } },
+                mk_bytes = |s: &[u8]| -> BBox<'static, [u8]> { BBox::from_iter_in(s.iter().copied(), bref) },
+                dynhash = |h: RecHasher| -> BBox<'static, dyn Hasher> { let x = BBox::new_in(h, bref); unsafe { BBox::from_raw(BBox::into_raw(x) as *mut dyn Hasher) } },
+                dynfut = |f: TwoStep| -> BBox<'static, dyn Future<Output = u32> + Unpin> { let x = BBox::new_in(f, bref); unsafe { BBox::from_raw(BBox::into_raw(x) as *mut (dyn Future<Output = u32> + Unpin)) } })
+        })
+    };
+    let r1 = {
+        let o = &mut o1;
+        let _g = Callback::enter();
+        crate::util::quiet(|| catch_unwind(AssertUnwindSafe(|| {
+            forwarding!(o, g, a, b, mk = |x| Box::new(x),
+                mk_str = |s: &str| -> Box<str> { String::from(s).into_boxed_str() },
+                mk_bytes = |s: &[u8]| -> Box<[u8]> { s.to_vec().into_boxed_slice() },
+                dynhash = |h: RecHasher| -> Box<dyn Hasher> { Box::new(h) },
+                dynfut = |f: TwoStep| -> Box<dyn Future<Output = u32> + Unpin> { Box::new(f) })
+        })).map_err(|p| classify_panic(&*p)))
+    };
+    let name = FW_NAMES[g as usize];
+    let ctx = format!("Box forwarding, {name}, case ({a},{b})");
+    let mut h = Hasher128::new();
+    match (&r0, &r1) {
+        (Ok(()), Ok(())) => {
+            for (i, (x, y)) in o0.iter().zip(o1.iter()).enumerate() {
+                if x != y {
+                    v.push(Violation { prop: 17, clause: "forwarding_differs", key: format!("forwarding_differs/{name}/obs{i}"), detail: format!("{ctx}: bumpalo Box gave `{x}`, std Box gave `{y}`"), unsafe_mem: false });
+                    break;
+                }
+            }
+            if o0.len() != o1.len() {
+                v.push(Violation { prop: 17, clause: "forwarding_differs", key: format!("forwarding_differs/{name}/count"), detail: format!("{ctx}: {} observations, std {}", o0.len(), o1.len()), unsafe_mem: false });
+            }
+            for x in &o0 {
+                for c in x.bytes() { h.u(c as u64); }
+            }
+        }
+        (Err(p), _) => v.push(Violation { prop: 17, clause: "box_operation_panicked", key: format!("box_operation_panicked/{name}"), detail: format!("{ctx}: panicked {:?}", p), unsafe_mem: false }),
+        (Ok(()), Err(p)) => v.push(Violation { prop: 17, clause: "std_panicked_only", key: format!("std_panicked_only/{name}"), detail: format!("{ctx}: std panicked {:?}", p), unsafe_mem: false }),
+    }
+    let _ = arena_op(envp, 3, 0, &[], || unsafe { std::ptr::drop_in_place(bump) });
+    drop(unsafe { Box::from_raw(bump as *mut std::mem::ManuallyDrop<Bump>) });
+    h.finish64()
+}
+
 pub fn run_case(envp: *mut ExecEnv, fam: u8, build: u8, steps: u16, term: u8, fault: u8, v: &mut Vec<Violation>) -> u64 {
+    if fam >= 100 {
+        return run_forwarding(envp, fam - 100, build, steps, v);
+    }
     reset_ledgers();
     zdrops_reset();
     let bump: *mut Bump = Box::into_raw(Box::new(arena_op(envp, 0, 0, &[], || Bump::with_capacity(2048)).unwrap()));
